@@ -1,18 +1,75 @@
 """Gen/Resulttabs.v: the status word ExtendedToStreamDecorator emits per outcome method, the statuses
-StreamFailFast reacts to, the statuses StreamSummary counts against wasSuccessful(), and _status_map -
-all probed on / read from the imported live code (DESIGN 3.2)."""
+StreamFailFast reacts to, the statuses StreamSummary counts against wasSuccessful(), and the method by which
+StreamToExtendedDecorator replays a test that ends with each status word (what the private `_status_map` says) -
+all PROBED through public classes of the imported live code (DESIGN 3.2): renaming or restructuring `_status_map`,
+`_StreamToTestRecord`, the StreamSummary handlers ... does not change a byte of the table while the behaviour is
+the same.  Names read: the public constants INTERIM_STATES / FINAL_STATES / STATES (only to know which status words
+to probe; the eight documented words are probed even if the constants are gone), the doubles' documented record
+`_events`, and - only to WIDEN the set of words probed, if it still exists - the keys of `real._status_map`."""
 
 OUTCOMES = ["addSuccess", "addError", "addFailure", "addSkip", "addExpectedFailure", "addUnexpectedSuccess"]
+# the status words documented in StreamResult.status()
+DOCUMENTED = ["exists", "fail", "inprogress", "skip", "success", "unknown", "uxsuccess", "xfail"]
 
 
 def _s(x):
     return '"%s"%%string' % x
 
 
+def _const(real, name):
+    """the string members of a public module constant of status words; empty if it is gone or not iterable"""
+    try:
+        return set(w for w in getattr(real, name, ()) if isinstance(w, str))
+    except TypeError:
+        return set()
+
+
+def interim_words(real):
+    """status words on whose arrival a test is NOT reported yet: the public INTERIM_STATES; if that name is gone,
+    probed (StreamToDict reports a test at once exactly when the status is final)"""
+    if hasattr(real, "INTERIM_STATES"):
+        return set(real.INTERIM_STATES)
+    out = {None}
+    for w in DOCUMENTED:
+        seen = []
+        s = real.StreamToDict(seen.append)
+        s.startTestRun()
+        s.status(test_id="probe", test_status=w)
+        if not seen:
+            out.add(w)
+        s.stopTestRun()
+    return out
+
+
+def replayed_as(real, doubles, word):
+    """the add* method StreamToExtendedDecorator calls on the decorated result for a test whose last status word is
+    `word` (None: none at all, e.g. 'exists'); for an interim word the test is flushed by stopTestRun"""
+    log = doubles.ExtendedTestResult()
+    s = real.StreamToExtendedDecorator(log)
+    s.startTestRun()
+    try:
+        s.status(test_id="probe", test_status=word)
+        s.stopTestRun()
+    except Exception:  # noqa - a word the converter cannot replay (KeyError today) has no entry
+        return None
+    calls = [e[0] for e in log._events if e[0].startswith("add")]
+    if not calls:
+        return None
+    return calls[0] if len(calls) == 1 else "SEVERAL"
+
+
+def status_map(real, doubles, universe):
+    try:
+        return [(w, m) for w, m in ((w, replayed_as(real, doubles, w)) for w in universe) if m is not None]
+    except Exception:  # noqa - the probe itself could not be carried out: read the private table
+        return sorted(real._status_map.items())
+
+
 def render():
     from testtools import PlaceHolder
     from testtools.testresult import real, doubles
     t = PlaceHolder("probe")
+    interim = interim_words(real)
     words = []
     for m in OUTCOMES:
         log = doubles.StreamResult()
@@ -25,10 +82,11 @@ def render():
         else:
             getattr(r, m)(t)
         finals = [e.test_status for e in log._events
-                  if e[0] == "status" and e.test_status not in real.INTERIM_STATES]
+                  if e[0] == "status" and e.test_status not in interim]
         assert len(finals) == 1, (m, finals)
         words.append(finals[0])
-    universe = sorted(set(words) | set(k for k in real._status_map) | set(s for s in real.FINAL_STATES))
+    universe = sorted(set(words) | set(DOCUMENTED) | _const(real, "FINAL_STATES") | _const(real, "INTERIM_STATES")
+                      | _const(real, "STATES") | _const(real, "_status_map"))
     reacts = []
     counts = []
     for s in universe:
@@ -36,7 +94,7 @@ def render():
         real.StreamFailFast(lambda: hit.append(1)).status(test_id="x", test_status=s)
         if hit:
             reacts.append(s)
-        if s in real.INTERIM_STATES:
+        if s in interim:
             continue
         summ = real.StreamSummary()
         summ.startTestRun()
@@ -62,7 +120,7 @@ def render():
         "Definition summary_flush_counts : bool := %s." % ("true" if flush else "false"),
         "(* _status_map: status word -> TestResult method StreamToExtendedDecorator replays *)",
         "Definition status_map : list (string * string) := [%s]." % "; ".join(
-            "(%s, %s)" % (_s(k), _s(v)) for k, v in sorted(real._status_map.items())),
+            "(%s, %s)" % (_s(k), _s(v)) for k, v in status_map(real, doubles, universe)),
         "",
     ]
     return "\n".join(lines)
